@@ -527,7 +527,7 @@ def generate(unit, template_path, repo=None, canary=False):
                     spec_text = spec_text.rstrip() + ('\n' if spec_text.strip() else '') + '    ensures ' + flag + '() ==> false,'
             if spec_text.strip():
                 inserts.append((lay['body_open'], '\n' + spec_text.rstrip() + '\n', ('contract', fi.name, 'spec')))
-            if dflt.get('bodyprelude') and ghost and lay['body_open'] is not None:
+            if dflt.get('bodyprelude') and (ghost or not dflt.get('ghost')) and lay['body_open'] is not None:
                 # ghost-only: lemma groups enabled at the top of the body (no in-body hints needed for transitivity)
                 inserts.append((lay['body_open'] + 1, ' ' + dflt['bodyprelude'] + ' ', None))
             auto_inv = dflt.get('loopinv') if ghost else None
